@@ -461,6 +461,9 @@ func (av AnyValue) AsString() (string, error) {
 
 	var val string
 	valueOf := reflect.ValueOf(av.Val)
+	if !valueOf.IsValid() {
+		return "", errs.NewErrInvalidType("string", av.Val)
+	}
 	switch valueOf.Type().Kind() {
 	case reflect.String:
 		val = valueOf.String()
